@@ -76,6 +76,11 @@ CHECKS = {
          "Generated valid upstream responses (every modelled status; Content-Length, chunked, close-delimited) are each cut at every byte offset and closed (exhaustive per response), and random cases add segmented delivery, garbage, header-malformed, bare-LF, unmodelled status, refused, accept-then-close, accept-then-silence, stall mid-response and 50 ms trickle upstreams, through proxy_request and the server's proxy_handler. The call must return (no panic), within timeout + active sending time + 2 s, the upstream's status/headers/body when what the upstream sent is a complete valid response by the reference parser and 502 otherwise; the upstream must have received the client's request (prefix stripped for proxy_handler) plus one X-Forwarded-For = origin address. LoadBalancer::select_target: strict rotation single-threaded, exact fairness with 1..8 threads, random stays in the set.",
          "Trusts the reference parsers and the scripted upstream; ambiguous cut zones (close-delimited bodies, after a chunked body's terminal 0 CRLF) accept either reading; proxy_handler's 5 s timeout is hard-coded so only a few stall cases go through it.",
          "DESIGN.md §5 C09"),
+ "C11": ("exploration",
+         "stateful proptest generation of WebSocket sessions (handler behaviour x client frame script x delivery) against a real App on loopback; oracle = reference RFC 6455 client/codec: handshake accept value, strict validation of every server byte, required reply sequence, server-side received-message log",
+         "Sessions against a real App with websocket_handler: the handler runs a recv loop, a recv_nonblocking polling loop, sends k messages first, or drops the stream immediately / after j messages; the reference client sends text/binary messages of 0..70 KiB in 1..5 fragments with pings interleaved, pings, pongs, and ends with a Close (with/without payload), by waiting for the server drop, or abruptly; keys absent / sample / any printable / empty / 200 chars; frames delivered whole, byte-wise, split after k bytes (inside header, extended length, key) or randomly. The 101 must carry the reference Sec-WebSocket-Accept (no key: no 101); every byte after it must decode as legal unmasked frames equal to the required sequence (server messages, one Pong with equal payload per Ping in order, Close for Close, Close on drop); the handler's received messages (fragments concatenated, type from the first fragment) must equal the client's, identically for blocking and non-blocking receive, and a client Close must surface as ConnectionClosed.",
+         "Trusts the reference codec/client. When the server stops while client bytes are still unread the kernel resets the connection and may discard the server's last bytes, so in those scripts only a prefix of the server frames is compared. A vanished peer is reported by recv_nonblocking as `nothing yet` (not judged).",
+         "DESIGN.md §5 C11"),
 }
 
 NOT_YET = "check not built yet (work in progress; see DESIGN.md §5 for the intended design)"
